@@ -676,6 +676,68 @@ pub fn body(case: &Case, out: &Shared) {
             }
         }
         if t.class == FileClass::Table {
+            // structure-aware: chunk headers of Snappy-framed (compressed) blocks. A frame stream
+            // starts with the identifier chunk ff 06 00 00 "sNaPpY"; every following chunk has a
+            // type byte (00 compressed, 01 uncompressed, 80-fd skippable, fe padding) and a 24-bit
+            // length. Rewriting a type byte to a skippable type makes a decoder drop the chunk
+            // without any complaint of its own - only the block checksum can notice.
+            const MAGIC: [u8; 10] = [0xff, 0x06, 0x00, 0x00, b's', b'N', b'a', b'P', b'p', b'Y'];
+            let mut chunk_headers: Vec<usize> = vec![];
+            let mut i = 0usize;
+            while i + MAGIC.len() <= original.len() {
+                if original[i..i + MAGIC.len()] == MAGIC {
+                    let mut pos = i + MAGIC.len();
+                    while pos + 4 <= original.len() && matches!(original[pos], 0x00 | 0x01) {
+                        let l = original[pos + 1] as usize | (original[pos + 2] as usize) << 8 | (original[pos + 3] as usize) << 16;
+                        if l < 4 || pos + 4 + l > original.len() {
+                            break;
+                        }
+                        chunk_headers.push(pos);
+                        pos += 4 + l;
+                    }
+                    i = pos.max(i + 1);
+                } else {
+                    i += 1;
+                }
+            }
+            if chunk_headers.len() > 24 {
+                rng.shuffle(&mut chunk_headers);
+                chunk_headers.truncate(24);
+                chunk_headers.sort_unstable();
+            }
+            for h in chunk_headers {
+                let b = original[h];
+                for nb in [0x80u8, 0xfe, 0xfd, b ^ 1] {
+                    let make = || {
+                        let mut st = image.clone();
+                        if let Some(f) = st.file_mut(&t.path) {
+                            f[h] = nb;
+                        }
+                        st
+                    };
+                    let what = format!("{} byte {} of {} ({} bytes): Snappy chunk type 0x{:02x} -> 0x{:02x} (chunk)", class, h, t.path.display(), t.len, b, nb);
+                    if !run_one(&make, what, "chunk") {
+                        break 'outer;
+                    }
+                }
+                // ... and the chunk length shortened by one / set to the minimum
+                for (off, nb) in [(h + 1, original[h + 1].wrapping_sub(1)), (h + 2, 0u8)] {
+                    if nb == original[off] {
+                        continue;
+                    }
+                    let make = || {
+                        let mut st = image.clone();
+                        if let Some(f) = st.file_mut(&t.path) {
+                            f[off] = nb;
+                        }
+                        st
+                    };
+                    let what = format!("{} byte {} of {} ({} bytes): Snappy chunk length byte 0x{:02x} -> 0x{:02x} (chunk)", class, off, t.path.display(), t.len, original[off], nb);
+                    if !run_one(&make, what, "chunk") {
+                        break 'outer;
+                    }
+                }
+            }
             let mut cuts: Vec<usize> = (0..t.len).collect();
             if cuts.len() > max_per_file / 2 {
                 rng.shuffle(&mut cuts);
